@@ -12,10 +12,11 @@
       exit=<code>|err=<hex of stderr (or of its first N bytes and "+")>|out=<hex of stdout>
 
   with every occurrence of the scratch directory replaced by `@DIR`.  MODEL is the same text computed by
-  `cliRun (mkLib files) (cliAction flags)`.  For the lists whose order is Go map iteration order (`-sequences` with
-  two or more sequences in a database) `out=` is the canonical JSON text with sorted arrays on both sides
-  (`canon:`).  For the modes whose structs this model does not render (floats / search values / trufflehog) the
-  handler compares stdout with the library's own JSON (`lib`).
+  `cliRun (mkLib files) (cliAction flags)`.  EVERY rendered mode is compared byte for byte (second review, point 11: the
+  former `canon:` mode — sorted arrays for `-sequences` with two or more sequences — is gone: FindSequences visits the
+  relations in filenode order since fix 9299071, and the model does the same).  For the modes whose structs this model
+  does not render (index / toast-verbose / dropped / search values / trufflehog) the handler compares stdout byte for
+  byte with the library's own result rendered by main.go's encoder settings (`lib`).
 -/
 import Driver.Fam.Cluster
 import PgVerif.Model.CliRender
@@ -108,6 +109,9 @@ def noFloats : Export.FloatFmt :=
 /-- the library over the tree; `pgdata` = PGDATA points at the tree -/
 def mkLib (files : Files) (pgdata : Bool) : Lib :=
   let relOf (p : Bytes) : Option Bytes := fsAbs files p
+  -- DumpDataDir = area cluster's model on the tree: the SAME instantiation as in `C12_cli_dump_is_dumpDataDir` /
+  -- `C12_cli_dump_on_cluster` (Props/C12CliDump.lean)
+  let base : Lib :=
   { version := strBytes "dev",
     detectAll := if pgdata ∧ validDataDir files then [strBytes "@DIR"] else [],
     listDatabases := listDatabasesM files,
@@ -142,10 +146,11 @@ def mkLib (files : Files) (pgdata : Bool) : Lib :=
     dumpBlockRange := fun p r => do return optOfR (← Model.dumpBlockRange (relOf p) r),
     -- DumpDataDir: area cluster's model over the tree (`filepath.Join(dataDir, "global", "1262")` = dir/global/1262 for
     -- the directories the cases use: no trailing slash, no `..`); tables in filenode order (fix cluster/01)
-    dumpDataDir := fun dir opts => Model.dumpDataDir rr idOrder (fun p => fsAbs files (dir ++ [47] ++ p)) opts,
+    dumpDataDir := fun _ _ => pure none,   -- replaced by `libOn` above
     -- the handler replaces the timestamp of the `-- Generated at: ` line (and nothing else) by this marker
     now := nowMarker,
     floatFmt := noFloats }
+  libOn base rr idOrder (fsAbs files)
 
 /-! ### argv ↔ Flags (plain `-name value` / `-name` forms; flag syntax variety is family `cli`'s business) -/
 
@@ -190,22 +195,10 @@ def argvToFlags : List Bytes → Flags → Flags
 
 /-! ### the model's text of a run -/
 
-/-- the JSON value behind stdout for the modes whose list order is map iteration order -/
-def canonValue (L : Lib) : Action → M (Option JV)
-  | .sequencesAll dir => do
-    match ← L.scanAllSequences dir with
-    | some m => return if m.any (fun e => e.2.length ≥ 2) then some (seqMapJV m) else none
-    | none => return none
-  | .sequencesDb dir db => do
-    match ← L.findSequences dir db with
-    | some l => return if l.length ≥ 2 then some (seqListJV l) else none
-    | none => return none
-  | _ => pure none
-
 structure Modelled where
   text : String
   errSpec : String      -- "all" or the number of leading stderr bytes the model determines
-  outMode : String      -- raw | canon | lib
+  outMode : String      -- raw | sqlts | lib:…
   action : Action
 
 def verboseLine (f : Flags) (a : Action) : Bytes :=
@@ -240,21 +233,16 @@ def runModel (files : Files) (pgdata : Bool) (f : Flags) : Modelled :=
   let pre := auto ++ verboseLine f a ++ vlines
   -- stdout of `-sql`: byte for byte, except that the handler masks the timestamp of the second line
   let rawMode := match a with | .dump _ _ .sql => "sqlts" | _ => "raw"
-  let r : M (Run × Option JV) := do
-    let run ← cliRun L a
-    let cv ← canonValue L a
-    pure (run, cv)
+  let r : M Run := cliRun L a
   if (dumped.map fun r => (dumpJV r).isNone).getD false then ⟨"UNMODELLED:float-cell", "all", "raw", a⟩ else
   match r with
   | .error e => ⟨faultStr e, "all", "raw", a⟩
-  | .ok (.unrendered _, _) => ⟨"exit=lib|err=lib|out=lib", "all", libSpec f a, a⟩
-  | .ok (.out o, cv) =>
+  | .ok (.unrendered _) => ⟨"exit=lib|err=lib|out=lib", "all", libSpec f a, a⟩
+  | .ok (.out o) =>
     let err := pre ++ o.stderr
     let errTxt := hexOf err ++ (if o.stderrMore then "+" else "")
     let errSpec := if o.stderrMore then toString err.length else "all"
-    match cv with
-    | some v => ⟨s!"exit={o.exit}|err={errTxt}|out=canon:{hexOf (canonJV v)}", errSpec, "canon", a⟩
-    | none => ⟨s!"exit={o.exit}|err={errTxt}|out={hexOf o.stdout}", errSpec, rawMode, a⟩
+    ⟨s!"exit={o.exit}|err={errTxt}|out={hexOf o.stdout}", errSpec, rawMode, a⟩
 
 def clirenderEval (args : List String) : String :=
   match args with
